@@ -267,6 +267,44 @@ def octet_crc_verdict(data):
     return ok, detail
 
 
+def reencoded_crc_audit(reenc, obs):
+    ''' Independent recomputation of what check_all_crc() has to say about a *decoded* bundle:
+    reenc = the real re-encoding of the decoded object, obs = its decoded field values. For every block
+    with CRC type 1/2 the decoded CRC value must be the bit-at-a-time CRC of the block's re-encoding
+    with a zeroed CRC field of the right width; with CRC type 0 there must be no value.
+    Returns the list of failing block indexes with a reason ([] = every block is fine or the
+    re-encoding is not block-shaped, which other monitors deal with). '''
+    if reenc is None:
+        return []
+    try:
+        blocks = split_blocks(reenc)
+    except (ValueError, IndexError):
+        return []
+    vals = [obs['primary']] + list(obs['blocks'])
+    if len(vals) != len(blocks):
+        return []
+    bad = []
+    for i, (blk, v) in enumerate(zip(blocks, vals)):
+        ct, crc = v['crc_type'], v['crc']
+        if ct == 0:
+            if crc is not None:
+                bad.append((i, 'crc type 0 with a value'))
+            continue
+        if ct not in (1, 2):
+            continue
+        if crc is None:
+            bad.append((i, 'no CRC value'))
+            continue
+        if len(crc) != 4 * ct:
+            bad.append((i, 'CRC value of %d octets' % (len(crc) // 2)))
+            continue
+        s, _e = blk['items'][-1]
+        z = reenc[blk['start']:s] + cb_bstr(bytes(2 * ct))
+        if crc_octets(ct, z).hex() != crc:
+            bad.append((i, 'CRC value %s, CRC of the re-encoded block %s' % (crc, crc_octets(ct, z).hex())))
+    return bad
+
+
 # ---------------------------------------------------------------- EIDs
 
 def eid_uri(e):
@@ -412,6 +450,112 @@ def status_report_cbor(rep):
 
 # ---------------------------------------------------------------- bundle specs
 
+# ---------------------------------------------------------------- BPSec abstract security block (RFC 9172 §3.6)
+
+def gen_secval(rng):
+    if rng.random() < 0.4:
+        return ('u', gen_int(rng))
+    return ('b', bytes(rng.randrange(256) for _ in range(gen_len(rng) % 40)))
+
+
+def gen_pairs(rng, lo=0):
+    n = rng.choice([lo, lo, 1, 1, 2, 3]) if lo == 0 else rng.choice([1, 1, 2, 3])
+    return [(gen_int(rng, 255) if rng.random() < 0.8 else gen_int(rng), gen_secval(rng)) for _ in range(n)]
+
+
+def gen_asb(rng, empty_results=None):
+    ''' targets, context id, flags (bit 0 = parameters present), source EID, parameters, one result array per
+    target — a target may have an empty result array (e.g. BCB-AES-GCM with the tag in the ciphertext) '''
+    nt = rng.choice([1, 1, 1, 2, 3, 0, 24])
+    flags = rng.choice([0, 1, 1])
+    if rng.random() < 0.1:
+        flags |= rng.choice([2, 4, 0x100])
+    asb = {'targets': [gen_int(rng, 255) for _ in range(nt)], 'ctx': gen_int(rng), 'flags': flags,
+           'source': gen_eid(rng), 'params': gen_pairs(rng, 0) if flags & 1 else [], 'results': []}
+    for _ in range(nt):
+        r = rng.random()
+        if empty_results is True or (empty_results is None and r < 0.3):
+            asb['results'].append([])
+        else:
+            asb['results'].append(gen_pairs(rng, 1))
+    return asb
+
+
+def secval_cbor(v):
+    return cb_uint(v[1]) if v[0] == 'u' else cb_bstr(v[1])
+
+
+def pairs_cbor(ps):
+    return cb_arr([cb_arr([cb_uint(k), secval_cbor(v)]) for k, v in ps])
+
+
+def asb_cbor(asb):
+    ''' the CBOR sequence (no enclosing array) of RFC 9172 §3.6 '''
+    out = [cb_arr([cb_uint(t) for t in asb['targets']]), cb_uint(asb['ctx']), cb_uint(asb['flags']),
+           eid_cbor(asb['source'])]
+    if asb['flags'] & 1:
+        out.append(pairs_cbor(asb['params']))
+    out.append(cb_arr([pairs_cbor(r) for r in asb['results']]))
+    return b''.join(out)
+
+
+def asb_json(asb):
+    def pj(ps):
+        return [{'id': k, 'v': ({'u': v[1]} if v[0] == 'u' else {'b': v[1].hex()})} for k, v in ps]
+    return {'targets': asb['targets'], 'ctx': asb['ctx'], 'flags': asb['flags'], 'source': eid_json(asb['source']),
+            'params': pj(asb['params']), 'results': [pj(r) for r in asb['results']]}
+
+
+def asb_observable(asb):
+    def po(ps):
+        return [(k, v[1] if v[0] == 'u' else v[1].hex()) for k, v in ps]
+    return {'targets': list(asb['targets']), 'ctx': asb['ctx'], 'flags': asb['flags'],
+            'source': eid_uri(asb['source']), 'params': po(asb['params']) if asb['flags'] & 1 else None,
+            'results': [po(r) for r in asb['results']]}
+
+
+def lean_asb_observable(j):
+    if j is None:
+        return None
+
+    def po(ps):
+        return [(p['id'], p['v']['u'] if 'u' in p['v'] else p['v']['b']) for p in ps]
+    return {'targets': j['targets'], 'ctx': j['ctx'], 'flags': j['flags'], 'source': eid_from_json(j['source']),
+            'params': po(j['params']) if j['flags'] & 1 else None, 'results': [po(r) for r in j['results']]}
+
+
+def real_asb(asb, ty):
+    R = real()
+    from bp.encoding.bpsec import TypeValuePair, TargetResultList, BlockIntegrityBlock, BlockConfidentialityBlock
+
+    def pl(ps):
+        return [TypeValuePair(type_code=k, value=v[1]) for k, v in ps]
+    cls = BlockIntegrityBlock if ty == 11 else BlockConfidentialityBlock
+    kw = dict(targets=list(asb['targets']), context_id=asb['ctx'], context_flags=asb['flags'],
+              source=eid_uri(asb['source']), results=[TargetResultList(results=pl(r)) for r in asb['results']])
+    if asb['flags'] & 1:
+        kw['parameters'] = pl(asb['params'])
+    return cls(**kw)
+
+
+def real_asb_observable(pay):
+    ''' parsed security block payload -> plain values; a result list that is not a packet shows as the
+    Python value it is (None under a broken dissector) '''
+    def po(lst):
+        out = []
+        for p in lst or []:
+            v = p.getfieldval('value')
+            out.append((p.getfieldval('type_code'), v.hex() if isinstance(v, bytes) else v))
+        return out
+    flags = int(pay.getfieldval('context_flags'))
+    res = []
+    for r in pay.getfieldval('results') or []:
+        res.append(po(r.getfieldval('results')) if hasattr(r, 'getfieldval') else repr(r))
+    return {'targets': list(pay.getfieldval('targets') or []), 'ctx': pay.getfieldval('context_id'), 'flags': flags,
+            'source': pay.getfieldval('source'),
+            'params': po(pay.getfieldval('parameters')) if flags & 1 else None, 'results': res}
+
+
 def gen_btsd(rng, ty, big=False):
     ''' (btsd bytes, extra) for a block of type ty; extra describes known payload classes '''
     if ty == 6:
@@ -423,6 +567,9 @@ def gen_btsd(rng, ty, big=False):
     if ty == 10:
         l, c = gen_int(rng, 255), gen_int(rng)
         return cb_arr([cb_uint(l), cb_uint(c)]), {'kind': 'hopcount', 'limit': l, 'count': c}
+    if ty in (11, 12):
+        asb = gen_asb(rng)
+        return asb_cbor(asb), {'kind': 'asb', 'asb': asb, 'type': ty}
     n = gen_len(rng, big)
     return bytes(rng.randrange(256) for _ in range(n)) if n < 4096 else bytes([rng.randrange(256)]) * n, None
 
@@ -437,7 +584,7 @@ def gen_crc_value(rng, ct):
     return bytes(rng.randrange(256) for _ in range(rng.choice([0, 1, 3, 5, 8])))
 
 
-def gen_bundle(rng, index=0, big=False, crc_mode=None, force_crc=False, max_time=U64):
+def gen_bundle(rng, index=0, big=False, crc_mode=None, force_crc=False, max_time=U64, nblocks=None, sec=True):
     ''' crc_mode: 'update' (CRC values computed by update_all_crc) or 'given' (arbitrary values) '''
     if crc_mode is None:
         crc_mode = 'update' if rng.random() < 0.6 else 'given'
@@ -460,10 +607,14 @@ def gen_bundle(rng, index=0, big=False, crc_mode=None, force_crc=False, max_time
     if ct and crc_mode == 'given':
         pri['crc'] = gen_crc_value(rng, ct)
     blocks = []
-    nums = list(range(2, 40)) + [255, 256, 65536, 2 ** 32]
+    nums = list(range(2, 40 + (nblocks or 0))) + [255, 256, 65536, 2 ** 32]
     rng.shuffle(nums)
-    for k in range(rng.choice([0, 0, 1, 1, 2, 3, 5])):
-        ty = rng.choice([6, 7, 10, 6, 7, 10, 192, 193, 23, 24, 255, 256, 65536, U64])
+    n_ext = rng.choice([0, 0, 1, 1, 2, 3, 5])
+    if nblocks is not None:
+        n_ext = nblocks
+    types = [6, 7, 10, 6, 7, 10, 192, 193, 23, 24, 255, 256, 65536, U64] + ([11, 12, 11, 12] if sec else [])
+    for k in range(n_ext):
+        ty = rng.choice(types)
         btsd, extra = gen_btsd(rng, ty, big)
         bct = rng.choice([0, 1, 2])
         combo_b = (index // 3 + k) % 16
@@ -603,6 +754,8 @@ def real_bundle(spec, use_payload_classes=True, admin_as_object=True):
                 pay = R['BundleAgeBlock'](age=ex['age'])
             elif ex['kind'] == 'hopcount':
                 pay = R['HopCountBlock'](limit=ex['limit'], count=ex['count'])
+            elif ex['kind'] == 'asb':
+                pay = real_asb(ex['asb'], ex['type'])
             elif ex['kind'] == 'status' and admin_as_object:
                 pay = real_status_report(ex['rep'])
                 admin_obj = True
@@ -717,6 +870,40 @@ def boot_agent(node_id='dtn://node/', path='/a'):
     agent = bp.agent.Agent(config, bus_kwargs=dict(conn=None, object_path=path))
     config.rx_route_table.append(bp.config.RxRouteItem(eid_pattern=re.compile('.*'), action='deliver'))
     return agent
+
+
+class FakeCl(object):
+    ''' stands for a bound convergence layer adaptor: records what the agent hands over '''
+
+    def __init__(self):
+        self.sent = []
+
+    def send_bundle_func(self, _raw_config):
+        return lambda data: self.sent.append(bytes(data))
+
+
+def agent_tx_route(agent, mtu, cl_type='verif'):
+    ''' one catch-all TX route with the given MTU over a recording CL; returns the recorder '''
+    import bp.config
+    cl = FakeCl()
+    agent._cl_agent[cl_type] = cl
+    del agent._config.tx_route_table[:]
+    agent._config.tx_route_table.append(bp.config.TxRouteItem(
+        eid_pattern=re.compile('.*'), next_nodeid='dtn://next/', cl_type=cl_type, mtu=mtu))
+    return cl
+
+
+def agent_run_idle(agent, limit=200):
+    ''' fire pending idle sources (fragments and reports are sent from idle callbacks) '''
+    from gi.repository import GLib
+    n = 0
+    while n < limit:
+        pend = GLib.LOOP.pending('idle')
+        if not pend:
+            break
+        GLib.LOOP.fire(pend[0])
+        n += 1
+    return n
 
 
 def agent_snapshot(agent):
